@@ -27,6 +27,14 @@ type Obligation struct {
 	Note   string
 }
 
+// Cover is a reachability guard: the path condition must be satisfiable together with the facts,
+// otherwise everything proved beyond that point is vacuous.
+type Cover struct {
+	Name   string
+	NFacts int
+	PC     *Term
+}
+
 type Exit struct {
 	Label string
 	St    *State
@@ -93,12 +101,14 @@ type Exec struct {
 	cancelL     *Loc
 	cancelModel bool
 	targetPkg   string
+	entryVals   map[types.Object]Value
+	covers      []*Cover
 }
 
 func NewExec(prog *Prog, ts *TermStore) *Exec {
 	return &Exec{prog: prog, ts: ts, base: map[*Loc]Value{}, globals: map[*types.Var]*Loc{}, initStore: map[*Loc]Value{},
 		escaped: map[*Loc]bool{}, initDone: map[string]bool{}, initBusy: map[string]bool{}, oblCount: map[string]int{}, loopBound: 8,
-		usedContracts: map[string]bool{}, assumptions: map[string]bool{}, revealed: map[string]bool{}, boundSeen: map[string]bool{}, goalValid: map[*Term]bool{}, heapClasses: map[string]*heapClass{}, forceInline: map[string]bool{}}
+		usedContracts: map[string]bool{}, assumptions: map[string]bool{}, revealed: map[string]bool{}, boundSeen: map[string]bool{}, goalValid: map[*Term]bool{}, heapClasses: map[string]*heapClass{}, forceInline: map[string]bool{}, entryVals: map[types.Object]Value{}}
 }
 
 // Clone makes an independent executor sharing the (immutable) base store.
@@ -598,4 +608,11 @@ func (ex *Exec) selector(a, b *State) *Term {
 		return ex.ts.Not(rb)
 	}
 	return ra
+}
+
+func (ex *Exec) cover(st *State, name string) {
+	if ex.suppress > 0 || st == nil {
+		return
+	}
+	ex.covers = append(ex.covers, &Cover{Name: ex.target + "#cover." + name, NFacts: len(ex.facts), PC: st.pc})
 }
